@@ -9,7 +9,7 @@ From Coq Require Import List NArith ZArith Lia Bool Arith ZifyBool ZifyN ZifyNat
 From Coq Require Import Strings.Byte.
 Require Import BS.Bytes BS.Common BS.CommonFacts BS.Api BS.Layout BS.Format BS.FormatFacts BS.Spec BS.SpecStep BS.Known BS.Judge BS.Sections.
 Require Import BS.FS BS.FSFacts BS.Meta BS.MetaFacts BS.Header BS.Reader BS.ReaderFacts BS.Index BS.Data BS.DataFacts BS.Seek BS.SeekFacts BS.Series BS.World.
-Require Import BS.SeriesFacts BS.ReadAllFacts BS.TotalFacts BS.CountFacts BS.OpenFacts BS.SampleFacts BS.ExtractFacts BS.HeaderFacts BS.ParseFileFacts BS.TornFacts BS.TornGenFacts.
+Require Import BS.SeriesFacts BS.ReadAllFacts BS.TotalFacts BS.CountFacts BS.OpenFacts BS.SampleFacts BS.ExtractFacts BS.HeaderFacts BS.ParseFileFacts BS.TornFacts BS.TornGenFacts BS.CacheFacts BS.CreateFailFacts BS.RecoverFacts BS.RangeRead BS.HistoryFacts.
 Import ListNotations.
 Close Scope N_scope. Open Scope nat_scope.
 
@@ -360,6 +360,175 @@ Proof.
   - cbn in HO. subst e. rewrite bytes_eqb_refl. cbn [fst snd]. split; [apply OUT; reflexivity|apply REL].
 Qed.
 
+(* ---- crashes: the data file cut at any byte of its data region, the index file lost or cut at any byte, then an open ---- *)
+Definition closed_agree (w:world) (s:sstate) : Prop :=
+  w_h w = None /\ ss_h s = None /\ (forall g, fs_get (w_fs w) g = sfs_get (ss_fs s) g).
+
+(* a file cut by k bytes from its end, on both sides *)
+Lemma cut_accepted w s f k : closed_agree w s ->
+  snd (judge_step s (OFsCut f k)) (snd (step' w (OFsCut f k))) = true
+  /\ closed_agree (fst (step' w (OFsCut f k))) (fst (judge_step s (OFsCut f k)))
+  /\ ss_det (fst (judge_step s (OFsCut f k))) = ss_det s
+  /\ w_fs (fst (step' w (OFsCut f k))) = match fs_get (w_fs w) f with Some c => fs_put (w_fs w) f (take (len c - k) c) | None => w_fs w end.
+Proof.
+  intros (Hw & Hs & AG).
+  unfold judge_step, spec_step. rewrite Hs. cbn [spec_step' step' step]. unfold spec_fs, fs_op. rewrite Hs, Hw.
+  rewrite <- (AG f). destruct (fs_get (w_fs w) f) as [c|] eqn:G; cbn [fst snd w_fs w_h ss_fs ss_h ss_det is_out no_file].
+  - split; [reflexivity|]. split; [|split; reflexivity]. split; [reflexivity|]. split; [reflexivity|].
+    intros g. cbn [w_fs ss_fs]. destruct (list_eq_dec Byte.byte_eq_dec g f) as [->|N].
+    + rewrite fs_get_put_same, sfs_get_put_same. reflexivity.
+    + rewrite fs_get_put_other, sfs_get_put_other by exact N. apply AG.
+  - split; [reflexivity|]. split; [|split; reflexivity]. split; [reflexivity|]. split; [reflexivity|exact AG].
+Qed.
+
+Lemma rm_accepted w s f : closed_agree w s ->
+  snd (judge_step s (OFsRm f)) (snd (step' w (OFsRm f))) = true
+  /\ closed_agree (fst (step' w (OFsRm f))) (fst (judge_step s (OFsRm f)))
+  /\ ss_det (fst (judge_step s (OFsRm f))) = ss_det s
+  /\ w_fs (fst (step' w (OFsRm f))) = if fs_mem (w_fs w) f then fs_del (w_fs w) f else w_fs w.
+Proof.
+  intros (Hw & Hs & AG).
+  unfold judge_step, spec_step. rewrite Hs. cbn [spec_step' step' step]. unfold spec_fs, fs_op. rewrite Hs, Hw.
+  assert (MM : sfs_mem (ss_fs s) f = fs_mem (w_fs w) f) by (unfold sfs_mem; rewrite CacheFacts.fs_mem_get, (AG f); reflexivity).
+  rewrite MM. destruct (fs_mem (w_fs w) f) eqn:M; cbn [fst snd w_fs w_h ss_fs ss_h ss_det is_out no_file].
+  - split; [reflexivity|]. split; [|split; reflexivity]. split; [reflexivity|]. split; [reflexivity|].
+    intros g. cbn [w_fs ss_fs]. destruct (list_eq_dec Byte.byte_eq_dec g f) as [->|N].
+    + rewrite fs_get_del_same, sfs_get_del_same. reflexivity.
+    + rewrite fs_get_del_other, sfs_get_del_other by exact N. apply AG.
+  - split; [reflexivity|]. split; [|split; reflexivity]. split; [reflexivity|]. split; [reflexivity|exact AG].
+Qed.
+
+(* both sides closed after a crash: the data region is the first c bytes of the encoding of l, the index file is absent or a
+   prefix of the index of l; nothing else in the directory *)
+Definition RelX (w:world) (s:sstate) (l:list line) (c:nat) : Prop :=
+  closed_agree w s /\ wf_series p l /\ c <= length (encode p l)
+  /\ fs_get (w_fs w) (name ++ ext_data) = Some (outer header ++ firstn c (encode p l))
+  /\ index_state (w_fs w) name (sections p (encode p l))
+  /\ (forall g, g <> name ++ ext_data -> g <> name ++ ext_index -> fs_get (w_fs w) g = None)
+  /\ ss_det s = true.
+
+Lemma take_cut_region (h e:list byte) (k:N) : (k <= len e)%N ->
+  take (len (h ++ e) - k) (h ++ e) = h ++ firstn (length e - N.to_nat k) e.
+Proof.
+  intros Hk. rewrite take_firstn. unfold len in *. rewrite app_length.
+  replace (N.to_nat (N.of_nat (length h + length e) - k)) with (length h + (length e - N.to_nat k)) by lia.
+  rewrite firstn_app. replace (length h + (length e - N.to_nat k) - length h) with (length e - N.to_nat k) by lia.
+  rewrite firstn_all2 by lia. reflexivity.
+Qed.
+
+(* the faults of a crash: the data file loses its last kd bytes (at most its whole data region), then the index file is left
+   alone, removed, or cut by ki bytes *)
+Inductive ifault := INone | IRm | ICut (ki:N).
+Definition ifault_ops (i:ifault) : list op :=
+  match i with INone => [] | IRm => [OFsRm (name ++ ext_index)] | ICut ki => [OFsCut (name ++ ext_index) ki] end.
+
+Lemma relx_files w s l c : RelX w s l c -> forall g, fs_get (w_fs w) g = sfs_get (judge_files s) g.
+Proof. intros ((_ & Hs & AG) & _) g. unfold judge_files, expected_files. rewrite Hs. apply AG. Qed.
+Lemma relx_det w s l c : RelX w s l c -> ss_det s = true.
+Proof. intros (_ & _ & _ & _ & _ & _ & D). exact D. Qed.
+
+Theorem crash_data_accepted w s l (kd:N) : RelC w s l -> (kd <= len (encode p l))%N ->
+  snd (judge_step s (OFsCut (name ++ ext_data) kd)) (snd (step' w (OFsCut (name ++ ext_data) kd))) = true
+  /\ RelX (fst (step' w (OFsCut (name ++ ext_data) kd))) (fst (judge_step s (OFsCut (name ++ ext_data) kd))) l (length (encode p l) - N.to_nat kd).
+Proof.
+  intros (Hw & Hs & (sr & R & N1 & N2) & Oth & F & DET) Hk.
+  pose proof (rh_wf _ _ _ _ _ _ R) as W.
+  pose proof (rd_file _ _ _ _ _ _ _ _ (rh_data _ _ _ _ _ _ R)) as [GD _]. rewrite N1 in GD.
+  pose proof (rd_ix _ _ _ _ _ _ _ _ (rh_data _ _ _ _ _ _ R)) as [GI _]. rewrite N2 in GI.
+  destruct (cut_accepted w s (name ++ ext_data) kd (conj Hw (conj Hs F))) as (OK & CA & D' & FS').
+  split; [exact OK|]. rewrite GD in FS'. rewrite (take_cut_region (outer header) (encode p l) kd Hk) in FS'.
+  split; [exact CA|]. split; [exact W|]. split; [lia|]. rewrite FS'.
+  split; [apply fs_get_put_same|].
+  split.
+  - right. exists (length (outer [] ++ enc_index (sections p (encode p l)))). rewrite firstn_all.
+    rewrite fs_get_put_other by (apply not_eq_sym; apply ext_data_index_neq). exact GI.
+  - split; [|rewrite D'; exact DET]. intros g G1 G2. rewrite fs_get_put_other by exact G1. apply Oth; assumption.
+Qed.
+
+Theorem crash_index_accepted w s l c (i:ifault) : RelX w s l c ->
+  match ifault_ops i with
+  | [] => True
+  | o :: _ => snd (judge_step s o) (snd (step' w o)) = true /\ RelX (fst (step' w o)) (fst (judge_step s o)) l c
+  end.
+Proof.
+  intros (CA & W & Hc & GD & IS & Oth & DET).
+  destruct i as [| |ki]; cbn [ifault_ops]; [exact I| |].
+  - destruct (rm_accepted w s (name ++ ext_index) CA) as (OK & CA' & D' & FS').
+    split; [exact OK|]. split; [exact CA'|]. split; [exact W|]. split; [exact Hc|]. rewrite FS'.
+    destruct (fs_mem (w_fs w) (name ++ ext_index)) eqn:M.
+    + split; [rewrite fs_get_del_other by apply ext_data_index_neq; exact GD|].
+      split; [left; apply fs_get_del_same|]. split; [|rewrite D'; exact DET].
+      intros g G1 G2. rewrite fs_get_del_other by exact G2. apply Oth; assumption.
+    + split; [exact GD|]. split; [exact IS|]. split; [exact Oth|rewrite D'; exact DET].
+  - destruct (cut_accepted w s (name ++ ext_index) ki CA) as (OK & CA' & D' & FS').
+    split; [exact OK|]. split; [exact CA'|]. split; [exact W|]. split; [exact Hc|]. rewrite FS'.
+    destruct IS as [ABS|[ci PRE]].
+    + rewrite ABS. split; [exact GD|]. split; [left; exact ABS|]. split; [exact Oth|rewrite D'; exact DET].
+    + rewrite PRE.
+      split; [rewrite fs_get_put_other by apply ext_data_index_neq; exact GD|].
+      split.
+      * right. rewrite fs_get_put_same. rewrite take_firstn, firstn_firstn. eexists. reflexivity.
+      * split; [|rewrite D'; exact DET]. intros g G1 G2. rewrite fs_get_put_other by exact G2. apply Oth; assumption.
+Qed.
+
+
+(* the open that follows a crash: the model recovers, the judge (Layer F's recovery) expects exactly that *)
+Theorem open_torn_accepted w s l c popt hdropt cb : RelX w s l c -> reopen_valid l popt hdropt ->
+  snd (judge_step s (OOpen name popt hdropt [] cb)) (snd (step' w (OOpen name popt hdropt [] cb))) = true
+  /\ Rel (fst (step' w (OOpen name popt hdropt [] cb))) (fst (judge_step s (OOpen name popt hdropt [] cb))) (firstn (complete p c l) l).
+Proof.
+  intros ((Hw & Hs & AG) & W & Hc & GD & IS & Oth & DET) (NM & H64 & Hopt & HO).
+  destruct (torn_open_gen_names p (w_fs w) name hdr popt hdropt cb l c W NM Hc Hh H64 Hp GD IS Hopt HO)
+    as (fs' & s' & k & E & Hk & LE & MX & R' & CB & OT & M1 & M2 & PT).
+  assert (KC : complete p c l = k) by (apply complete_unique; assumption).
+  rewrite KC.
+  destruct (recover_cut p l c W Hc) as (k2 & Hk2 & LE2 & MX2 & RC).
+  assert (K2 : k2 = k).
+  { rewrite <- KC. symmetry. apply complete_unique; assumption. }
+  subst k2.
+  assert (Wk : wf_series p (firstn k l)) by (apply wf_firstn'; exact W).
+  assert (SD : sfs_get (ss_fs s) (name ++ ext_data) = Some (outer header ++ firstn c (encode p l))) by (rewrite <- AG; exact GD).
+  cbn [step' step w_fs]. rewrite E. cbn [fst snd].
+  unfold judge_step, spec_step. rewrite Hs. cbn [spec_step'].
+  unfold spec_open. rewrite (close_handle_closed _ _ s Hs). cbn [existsb].
+  change (name ++ s_ext_data) with (name ++ ext_data). rewrite SD.
+  pose proof (parse_file_ok (N.of_nat p) hdr (firstn c (encode p l)) Hp Hh) as PF. cbv zeta in PF. fold header in PF.
+  rewrite PF. cbn [pf_p pf_user pf_region]. rewrite Nat2N.id.
+  assert (PO : match popt with Some q => negb (q =? N.of_nat p)%N | None => false end = false).
+  { destruct Hopt as [->| ->]; [reflexivity|]. rewrite N.eqb_refl. reflexivity. }
+  rewrite PO, RC. rewrite (wf_lines_of_wf p _ Wk). cbn [negb].
+  assert (TK : take (N.of_nat (length (encode p (firstn k l)))) (firstn c (encode p l)) = encode p (firstn k l)).
+  { rewrite take_firstn, Nat2N.id, firstn_firstn, Nat.min_l by exact LE.
+    rewrite (encode_split p l k) at 1. rewrite firstn_app, Nat.sub_diag, firstn_all. cbn [firstn]. apply app_nil_r. }
+  rewrite TK.
+  assert (OUT : forall e, e = hdr -> is_out (ROpened (N.of_nat (d_p (s_data s'))) hdr) (ROpened (N.of_nat p) e) = true).
+  { intros e ->. cbn [is_out]. rewrite (payload_size_ok _ _ _ _ _ _ R'), N.eqb_refl, bytes_eqb_refl. reflexivity. }
+  assert (NP : fs_get (w_fs w) (name ++ ext_part) = None).
+  { apply Oth.
+    - intros Q. apply app_inv_head in Q. unfold ext_part, ext_index in Q. rewrite <- (app_nil_r ext_data) in Q at 2.
+      rewrite <- !app_assoc in Q. apply app_inv_head in Q. discriminate.
+    - apply names_part_index. }
+  assert (REL : forall cbx, Rel {| w_fs := fs'; w_h := Some s' |}
+            {| ss_fs := sfs_del (ss_fs s) (name ++ s_ext_part);
+               ss_h := Some {| sh_name := name; sh_p := p; sh_hdr := hdr; sh_caches := []; sh_cb := cbx;
+                               sh_rlines := frev (firstn k l); sh_rregion := frev (encode p (firstn k l));
+                               sh_full := last_full p (encode p (firstn k l)); sh_dmg := None |};
+               ss_orig := sfs_del (ss_orig s) (name ++ ext_data); ss_det := ss_det s |} (firstn k l)).
+  { intros cbx. eexists s', _. cbn [w_h w_fs ss_h ss_fs ss_det sh_name sh_p sh_hdr sh_caches sh_dmg sh_rlines sh_rregion sh_full].
+    split; [reflexivity|]. split; [reflexivity|]. split; [exact R'|]. split; [exact M1|]. split; [exact M2|].
+    split.
+    { intros g G1 G2. destruct (list_eq_dec Byte.byte_eq_dec g (name ++ ext_part)) as [->|G3]; [apply PT; exact NP|].
+      rewrite OT by assumption. apply Oth; assumption. }
+    repeat (split; [reflexivity|]).
+    split; [apply frev_rev|]. split; [apply frev_rev|]. split; [apply (last_full_encode p _ Wk)|].
+    split; [|exact DET].
+    intros g G1 G2. destruct (list_eq_dec Byte.byte_eq_dec g (name ++ s_ext_part)) as [->|G3]; [apply sfs_get_del_same|].
+    rewrite sfs_get_del_other by exact G3. rewrite <- AG. apply Oth; assumption. }
+  destruct hdropt as [|e].
+  - cbn [fst snd]. split; [apply OUT; reflexivity|apply REL].
+  - cbn in HO. subst e. rewrite bytes_eqb_refl. cbn [fst snd]. split; [apply OUT; reflexivity|apply REL].
+Qed.
+
 (* a whole session: every answer of the model is allowed by the judge, the files of the model are the files the judge
    expects after every step, and the judge never leaves the territory the properties determine *)
 Fixpoint accepted (w:world) (s:sstate) (ops:list op) : Prop :=
@@ -392,18 +561,22 @@ Proof.
 Qed.
 
 (* ---- histories with clean close-and-reopen steps in between (C04 at the level of the judge) ---- *)
-Inductive hstep := HOp (o:op) | HReopen (popt:option N) (hdropt:hdropt) (cb:cbmode).
+Inductive hstep := HOp (o:op) | HReopen (popt:option N) (hdropt:hdropt) (cb:cbmode)
+  | HCrash (kd:N) (i:ifault) (popt:option N) (hdropt:hdropt) (cb:cbmode).
 Fixpoint flatten (hs:list hstep) : list op :=
   match hs with
   | [] => []
   | HOp o :: t => o :: flatten t
   | HReopen a b c :: t => OClose :: OOpen name a b [] c :: flatten t
+  | HCrash kd i a b c :: t => OClose :: OFsCut (name ++ ext_data) kd :: ifault_ops i ++ OOpen name a b [] c :: flatten t
   end.
 Fixpoint hvalid (l:list line) (hs:list hstep) : Prop :=
   match hs with
   | [] => True
   | HOp o :: t => sess_op o /\ hvalid (next_lines l o) t
   | HReopen a b _ :: t => reopen_valid l a b /\ hvalid l t
+  | HCrash kd _ a b _ :: t => (kd <= len (encode p l))%N /\ reopen_valid l a b
+                              /\ hvalid (firstn (complete p (length (encode p l) - N.to_nat kd) l) l) t
   end.
 
 Lemma relc_det w s l : RelC w s l -> ss_det s = true.
@@ -411,7 +584,7 @@ Proof. intros (_ & _ & _ & _ & _ & D). exact D. Qed.
 
 Lemma hist_accepted : forall hs w s l, Rel w s l -> hvalid l hs -> accepted w s (flatten hs).
 Proof.
-  induction hs as [|[o|a b c] t IH]; intros w s l RL V; [exact I| |].
+  induction hs as [|[o|a b c|kd i a b c] t IH]; intros w s l RL V; [exact I| | |].
   - destruct V as [SO Vt]. destruct (step_accepted w s l o RL SO) as (OK & RL').
     cbn [flatten accepted]. split; [exact OK|]. split; [exact (rel_files _ _ _ RL')|]. split; [exact (rel_det _ _ _ RL')|].
     exact (IH _ _ _ RL' Vt).
@@ -420,6 +593,23 @@ Proof.
     cbn [flatten accepted]. split; [exact OK1|]. split; [exact (relc_files _ _ _ RC)|]. split; [exact (relc_det _ _ _ RC)|].
     split; [exact OK2|]. split; [exact (rel_files _ _ _ RL2)|]. split; [exact (rel_det _ _ _ RL2)|].
     exact (IH _ _ _ RL2 Vt).
+  - destruct V as (Hkd & RO & Vt). destruct (close_accepted w s l RL) as (OK1 & RC).
+    destruct (crash_data_accepted _ _ l kd RC Hkd) as (OK2 & RX).
+    cbn [flatten accepted]. split; [exact OK1|]. split; [exact (relc_files _ _ _ RC)|]. split; [exact (relc_det _ _ _ RC)|].
+    split; [exact OK2|]. split; [exact (relx_files _ _ _ _ RX)|]. split; [exact (relx_det _ _ _ _ RX)|].
+    pose proof (crash_index_accepted _ _ l _ i RX) as CI.
+    destruct i as [| |ki]; cbn [ifault_ops app] in *.
+    + destruct (open_torn_accepted _ _ l _ a b c RX RO) as (OK3 & RL3).
+      cbn [accepted]. split; [exact OK3|]. split; [exact (rel_files _ _ _ RL3)|]. split; [exact (rel_det _ _ _ RL3)|].
+      exact (IH _ _ _ RL3 Vt).
+    + destruct CI as (OKi & RX2). destruct (open_torn_accepted _ _ l _ a b c RX2 RO) as (OK3 & RL3).
+      cbn [accepted]. split; [exact OKi|]. split; [exact (relx_files _ _ _ _ RX2)|]. split; [exact (relx_det _ _ _ _ RX2)|].
+      split; [exact OK3|]. split; [exact (rel_files _ _ _ RL3)|]. split; [exact (rel_det _ _ _ RL3)|].
+      exact (IH _ _ _ RL3 Vt).
+    + destruct CI as (OKi & RX2). destruct (open_torn_accepted _ _ l _ a b c RX2 RO) as (OK3 & RL3).
+      cbn [accepted]. split; [exact OKi|]. split; [exact (relx_files _ _ _ _ RX2)|]. split; [exact (relx_det _ _ _ _ RX2)|].
+      split; [exact OK3|]. split; [exact (rel_files _ _ _ RL3)|]. split; [exact (rel_det _ _ _ RL3)|].
+      exact (IH _ _ _ RL3 Vt).
 Qed.
 
 Theorem history_accepted cb hs : hvalid [] hs ->
@@ -432,11 +622,12 @@ Qed.
 End Session.
 
 (* the premises are satisfiable: payload size 4 (no marker-word condition), two appends, a clean reopen, a refused and an
-   accepted append, reads *)
+   accepted append, reads, a crash that cuts the data file inside its last line and removes the index, an append, a reopen *)
 Example history_accepted_example :
   let pay := [x01; x02; x03; x04] in
   hvalid 4 [] [] [HOp (OPush 10 pay); HOp (OPush 70000 pay); HReopen None HdrAny CbNone; HOp (OPush 5 pay); HOp (OPush 70001 pay);
-                  HOp (OReadAll (Incl 11) Unb); HOp (OReadN 2 Unb Unb); HOp (ONLines Unb (Excl 70001)); HReopen (Some 4%N) (HdrIs []) CbDeny; HOp OLen].
+                  HOp (OReadAll (Incl 11) Unb); HOp (OReadN 2 Unb Unb); HOp (ONLines Unb (Excl 70001));
+                  HCrash 3 IRm None HdrAny CbNone; HOp OLen; HOp (OPush 70001 pay); HCrash 0 (ICut 5) (Some 4%N) (HdrIs []) CbDeny; HOp OLen].
 Proof.
   cbv zeta.
   assert (NM : forall m, Forall (nm_sec 4) (secs_of m)) by (intros m; apply Forall_forall; intros sct _; apply nm_p4; lia).
@@ -446,5 +637,6 @@ Proof.
          | |- sess_op _ => constructor
          | |- Forall (nm_sec 4) _ => apply NM
          | |- True => exact I
-         end; try (vm_compute; reflexivity); try lia; try (left; reflexivity); try (right; reflexivity); try reflexivity.
+         end; try (vm_compute; reflexivity); try lia; try (left; reflexivity); try (right; reflexivity); try reflexivity;
+    try (apply N.leb_le; vm_compute; reflexivity); try (apply N.ltb_lt; vm_compute; reflexivity).
 Qed.
